@@ -1,0 +1,107 @@
+//! Verification hooks (only compiled with `--cfg eigerco_lumina_verif`).
+//!
+//! `DaserSim` starts the real [`Daser`] over a mocked `P2p` and exposes, through public types
+//! only, what an external harness needs to drive it: the mocked peer-tracker announcements, a
+//! non-blocking view of the `GetShwapCid` requests, and the three commands the `Pruner` sends.
+
+use std::sync::Arc;
+use std::time::Duration;
+
+use cid::Cid;
+use tokio::sync::mpsc::error::TryRecvError;
+use tokio::sync::oneshot;
+
+use super::{Daser, DaserArgs, DaserError};
+use crate::events::{EventChannel, EventSubscriber};
+use crate::p2p::{P2p, P2pCmd, P2pError};
+use crate::store::Store;
+use crate::test_utils::MockP2pHandle;
+
+/// A `GetShwapCid` request issued by the daser through the mocked `P2p`.
+pub struct ShwapRequest {
+    /// Requested CID.
+    pub cid: Cid,
+    /// Channel on which the (mocked) network answers.
+    pub respond_to: oneshot::Sender<Result<Vec<u8>, P2pError>>,
+}
+
+/// The real `Daser` running over `P2p::verif_mocked()`.
+pub struct DaserSim {
+    daser: Daser,
+    handle: MockP2pHandle,
+}
+
+impl DaserSim {
+    /// Start the real daser worker (must be called inside a tokio runtime).
+    ///
+    /// Returns the sim and a subscriber of the (private) event channel the daser publishes to.
+    pub fn start<S>(
+        store: Arc<S>,
+        sampling_window: Duration,
+        concurrency_limit: usize,
+        additional_headersub_concurrency: usize,
+    ) -> Result<(Self, EventSubscriber), DaserError>
+    where
+        S: Store + 'static,
+    {
+        let events = EventChannel::new();
+        let event_sub = events.subscribe();
+        let (p2p, handle) = P2p::verif_mocked();
+        let daser = Daser::start(DaserArgs {
+            p2p: Arc::new(p2p),
+            store,
+            event_pub: events.publisher(),
+            sampling_window,
+            concurrency_limit,
+            additional_headersub_concurrency,
+        })?;
+        Ok((DaserSim { daser, handle }, event_sub))
+    }
+
+    /// Simulate a new connected peer.
+    pub fn announce_peer_connected(&self) {
+        self.handle.announce_peer_connected();
+    }
+
+    /// Simulate a disconnect from all peers.
+    pub fn announce_all_peers_disconnected(&self) {
+        self.handle.announce_all_peers_disconnected();
+    }
+
+    /// Non-blocking: next `GetShwapCid` request sent by the daser, if any.
+    ///
+    /// `Err(description)` when the daser sent any other command or dropped the channel.
+    pub fn try_next_request(&mut self) -> Result<Option<ShwapRequest>, String> {
+        match self.handle.cmd_rx.try_recv() {
+            Ok(P2pCmd::GetShwapCid { cid, respond_to }) => Ok(Some(ShwapRequest { cid, respond_to })),
+            Ok(cmd) => Err(format!("unexpected P2pCmd: {cmd:?}")),
+            Err(TryRecvError::Empty) => Ok(None),
+            Err(TryRecvError::Disconnected) => Err("P2p command channel closed".into()),
+        }
+    }
+
+    /// `Daser::want_to_prune` (what the `Pruner` calls before removing an unsampled block).
+    pub async fn want_to_prune(&self, height: u64) -> Result<bool, DaserError> {
+        self.daser.want_to_prune(height).await
+    }
+
+    /// `Daser::update_highest_prunable_block`.
+    pub async fn update_highest_prunable_block(&self, value: u64) -> Result<(), DaserError> {
+        self.daser.update_highest_prunable_block(value).await
+    }
+
+    /// `Daser::update_number_of_prunable_blocks`.
+    pub async fn update_number_of_prunable_blocks(&self, value: u64) -> Result<(), DaserError> {
+        self.daser.update_number_of_prunable_blocks(value).await
+    }
+
+    /// Stop the worker.
+    pub fn stop(&self) {
+        self.daser.stop();
+    }
+
+    /// Wait until the worker is completely stopped.
+    pub async fn join(&self) {
+        self.daser.join().await;
+    }
+}
